@@ -15,7 +15,7 @@ def run(ctx):
         "the probability matrix is finite, non-negative and sums to the number of idle ensembles; after every step: idle slots have a "
         "non-zero diagonal, live paths distinct, path numbers increasing and never reused across restarts; every restart loads; "
         "a child that does not terminate within the time-out (sort loop) or raises is a violation. "
-        "Non-trivial: >=1 replacement and (>=2 jobs in flight or a restart). Distinct = digest of the case. Additionally an exhaustive in-memory exploration (checks/enumsys.py) of small systems (3-4 interfaces; thorough: up to 5): every completion order x every move outcome from {reject, accept-minimal, accept-far} x every result of the scheduler's random choices, run to closure of the reachable (weight matrix, busy marks, in-flight jobs) states with the same invariants."
+        "Non-trivial: >=1 replacement and (>=2 jobs in flight or a restart). Distinct = digest of the case. Additionally an exhaustive in-memory exploration (checks/enumsys.py) of small systems (3-4 interfaces; thorough: up to 5): every completion order x every move outcome from {reject, accept-minimal, accept-far} x every result of the scheduler's random choices, run to closure of the reachable (weight matrix, busy marks, in-flight jobs) states with the same invariants; in every state also a kill + restart from the last restart record (the restarted run's picks are enumerated too and its states join the exploration)."
     )
     from checks import enumsys
 
